@@ -802,6 +802,50 @@ fn c03_stale_after_reuse() {
     end_schedule(true);
 }
 
+/// the stale waker of a finished child is invoked on a thread *while* the owner pushes a new child
+/// into the very same slot (both go for the slot's queued flag and the queue)
+fn c03_stale_vs_push() {
+    begin_schedule();
+    let s0 = shared(1);
+    let s1 = shared(1);
+    let mut q = FuturesUnorderedBounded::new(1);
+    q.push(FlagFut { id: 0, sh: s0.clone() });
+    let mut ex = Exec::new(false);
+    {
+        let w = ex.waker();
+        let mut cx = Context::from_waker(&w);
+        assert!(Pin::new(&mut q).poll_next(&mut cx).is_pending());
+    }
+    let stale = s0.wakers.lock().unwrap()[0].clone();
+    fire(&s0, How::Wake, true);
+    {
+        let w = ex.waker();
+        let mut cx = Context::from_waker(&w);
+        match Pin::new(&mut q).poll_next(&mut cx) {
+            Poll::Ready(Some(0)) => {}
+            _ => violation("wrong-outputs", "child 0 not yielded".into()),
+        }
+    }
+    let t = thread::spawn(move || stale.wake());
+    q.push(FlagFut { id: 1, sh: s1.clone() }); // reuses slot 0, racing with the stale wake
+    let u = {
+        let s1 = s1.clone();
+        thread::spawn(move || fire(&s1, How::Wake, true))
+    };
+    let got = ex.drain(&mut q, 0);
+    t.join().unwrap();
+    u.join().unwrap();
+    if got != vec![1] {
+        violation("wrong-outputs", format!("{:?}", got));
+    }
+    record_outcome(got);
+    drop(q);
+    drop(ex);
+    s0.wakers.lock().unwrap().clear();
+    s1.wakers.lock().unwrap().clear();
+    end_schedule(true);
+}
+
 /// unbounded set: a waker into a group that the consumer's poll discards concurrently
 fn c03_group_discard() {
     begin_schedule();
@@ -870,6 +914,7 @@ fn scenarios(prop: &str, tier: &str) -> Vec<(&'static str, Scn)> {
             v.push(("c03_wake_by_ref_vs_drop", c03_wake_by_ref_vs_drop));
             v.push(("c03_clone_wake_vs_drop", c03_clone_wake_vs_drop));
             v.push(("c03_stale_after_reuse", c03_stale_after_reuse));
+            v.push(("c03_stale_vs_push", c03_stale_vs_push));
             v.push(("c03_group_discard", c03_group_discard));
         }
         _ => {}
